@@ -8,19 +8,46 @@
  * does not scale to a 64 KiB symbolic message (> 300 s, > 20 GB).  The contract keeps the two
  * safety facts (both spans inside their objects, objects distinct) and abstracts the
  * copied bytes to "anything" -- which loses nothing for the safety jobs, because the
- * message bytes are arbitrary there anyway.  The bounded content jobs use CBMC's
- * byte-exact memcpy.
+ * message bytes are arbitrary there anyway (the whole destination OBJECT is havocked: a
+ * symbolic-length slice havoc is as expensive as the copy).  The bounded content jobs use
+ * CBMC's byte-exact memcpy.
  */
 #ifndef VF_STUBS_DNS_H
 #define VF_STUBS_DNS_H
 #ifndef VF_REPLAY
 #include <string.h>
+#include <stdint.h>
 
+#if defined(VF_DNS_MEMCPY_LOOP)
+/* byte-exact body for the bounded content jobs: a plain loop (unwound to the job's bound)
+ * is far cheaper for the solver than CBMC's variable-length-array model of memcpy */
+void *memcpy(void *dst, const void *src, size_t n) {
+	size_t i;
+
+	__CPROVER_precondition(n == 0 || (__CPROVER_w_ok(dst, n) && __CPROVER_r_ok(src, n)),
+	    "memcpy: both spans inside their objects");
+	for (i = 0; i < n; i ++)
+		((uint8_t *)dst)[i] = ((const uint8_t *)src)[i];
+	return (dst);
+}
+#elif !defined(VF_DNS_MEMCPY_BODY)
+/* contract form, for `"replace": ["memcpy"]` in --dfcc jobs */
 void *memcpy(void *dst, const void *src, size_t n)
 __CPROVER_requires(n == 0 || (__CPROVER_w_ok(dst, n) && __CPROVER_r_ok(src, n) &&
     !__CPROVER_same_object(dst, src)))
 __CPROVER_assigns(n != 0: __CPROVER_object_whole(dst))
 __CPROVER_ensures(__CPROVER_return_value == dst)
 ;
+#else
+/* body form of the same assumption, for "plain" (non --dfcc) jobs: the two spans are
+ * asserted, the destination object is havocked (over-approximation of the n copied bytes) */
+void *memcpy(void *dst, const void *src, size_t n) {
+	__CPROVER_precondition(n == 0 || (__CPROVER_w_ok(dst, n) && __CPROVER_r_ok(src, n) &&
+	    !__CPROVER_same_object(dst, src)), "memcpy: both spans inside their (distinct) objects");
+	if (n != 0)
+		__CPROVER_havoc_object(dst);
+	return (dst);
+}
+#endif
 #endif
 #endif
